@@ -1,0 +1,108 @@
+//go:build verif
+
+package hq
+
+// Contracts for govc (see /verif/DESIGN.md §8 C15). Comment-only file: it adds no code.
+
+// ---------------------------------------------------------------------------------------
+// C15 (a): hop count <-> crawl-HQ path. The path of an outlink is one "L" per hop; the hop
+// count of a fetched URL is the number of "L" in its path. strings.Repeat / strings.Count
+// are tied to the spec functions strings.repeat / strings.count
+// (/verif/contracts/lib/c15_strings.spec).
+
+// hopsPath / pathHops: the specification of the two conversions.
+//@ pure hopsPath(h int) string = strings.repeat("L", h)
+//@ pure pathHops(p string) int = strings.count(p, "L")
+
+//@ func hopsToPath
+//@   property C15
+//@   modifies nothing
+//@   ensures [def] path == hopsPath(hops) // C15: handed to the queue with ... its hop count
+
+//@ func pathToHops
+//@   property C15
+//@   modifies nothing
+//@   ensures [def] hops == pathHops(path) // C15: its hop count, which survives the round trip back into a seed
+
+// The round trip, over the specification functions the two Go functions are proved equal to
+// (a Go call inside a spec expression does not import the callee's postcondition, so the lemma
+// is stated on hopsPath/pathHops; post:def of each function ties the code to them).
+//@ lemma hops-roundtrip(h int)
+//@   property C15
+//@   requires h >= 0
+//@   ensures [roundtrip] pathHops(hopsPath(h)) == h // C15: its hop count, which survives the round trip back into a seed
+
+// ---------------------------------------------------------------------------------------
+// C15 (b)/(d): producerReceiver turns every outlink item into a crawl-HQ record and batches the
+// records. [record] is checked at the first operation after the record is built on the
+// size-triggered path (logger.Debug #2): `append` of struct elements is not modelled by the
+// engine, call-site assertions exist only for calls, and a local declared inside the loop
+// (URL, item) cannot be named in a loop invariant - so the records inside batch.URLs cannot
+// be described; the record-building code is straight-line and the same on every path.
+// Ghost counters (package level, havocked at the loop head by `loop for modifies`):
+//   prRecv      records received from produceCh
+//   prHanded    records handed to the dispatcher (sum of the lengths of the batches sent)
+//   prLastSent  backing array of the batch handed over last
+// The hooks read `batch` (still the batch being handed over at that point); the copy that is
+// actually sent (`copyBatch`, declared twice) cannot be named unambiguously.
+// No [flushed-on-stop] clause here (see lq.producerReceiver, same code shape): failing
+// obligations of this function come out `undecided` because of the quantified strings axiom.
+//@ ghost var prRecv int
+//@ ghost var prHanded int
+//@ ghost var prLastSent mathint
+//@ func producerReceiver
+//@   property C15
+//@   requires globalHQ != nil && config.config != nil && config.config.HQBatchSize >= 0
+//@   requires prRecv == 0 && prHanded == 0 && prLastSent == 0
+//@   after selrecv(produceCh)#1: prRecv = prRecv + 1
+//@   after selsend(batchCh)#1: prHanded = prHanded + len(batch.URLs); prLastSent = arrof(batch.URLs)
+//@   after selsend(batchCh)#2: prHanded = prHanded + len(batch.URLs); prLastSent = arrof(batch.URLs)
+//@   assert Debug(logger)#2: [record] URL.Value == item.url.Raw && URL.Via == item.seedVia && URL.Path == hopsPath(item.url.Hops) // C15: handed to the queue with its text unchanged, its parent page as 'via' and its hop count
+//@   loop for modifies prRecv, prHanded, prLastSent
+//@   loop for invariant [conserved] prRecv == prHanded + len(batch.URLs) && batch != nil // C15: every outlink the pipeline discovers is handed to the queue
+//@   loop for invariant [size-trigger] 0 <= len(batch.URLs) && len(batch.URLs) < batchSize && batchSize >= 1
+//@   loop for invariant [unshared] arrof(batch.URLs) != prLastSent && (prLastSent == 0 || allocated(prLastSent)) // the batch being filled never shares its backing array with the batch handed over last
+
+// ---------------------------------------------------------------------------------------
+// C15 (c): the sender retry loops. globalHQ.client.Add / Delete may fail arbitrarily often
+// (trusted contract, error result unconstrained: /verif/contracts/lib/c15_gocrawlhq.spec). The loop
+// is left only after an attempt that succeeded, or once the context is cancelled (crawler
+// stopping); the last attempt (like every attempt) handed over the whole, unchanged batch:
+// gocrawlhq.lastAdd / lastDelete record the slice the client was called with.
+//@ func producerSender
+//@   property C15
+//@   requires globalHQ != nil && globalHQ.client != nil && batch != nil
+//@   modifies hqAddN, hqAddArr, hqAddLen, hqAddFailed
+//@   let urls0 = batch.URLs
+//@   let adds0 = gocrawlhq.nAdds()
+//@   loop for invariant [batch-kept] batch == old(batch) && samearray(batch.URLs, urls0) && len(batch.URLs) == len(urls0) && gocrawlhq.nAdds() >= adds0
+//@   ensures [delivered] gocrawlhq.nAdds() >= adds0 + 1 && gocrawlhq.lastAdd(urls0) && (gocrawlhq.lastAddOK() || closed(done(ctx))) // C15: while the crawler keeps running, transient crawl-HQ errors (5xx answers, timeouts) delay but never drop these deliveries
+
+//@ func finisherSender
+//@   property C15
+//@   requires globalHQ != nil && globalHQ.client != nil && batch != nil
+//@   modifies hqDelN, hqDelArr, hqDelLen, hqDelLocal, hqDelFailed
+//@   let urls0 = batch.URLs
+//@   let childs0 = batch.ChildsCaptured
+//@   let dels0 = gocrawlhq.nDeletes()
+//@   loop for invariant [batch-kept] batch == old(batch) && samearray(batch.URLs, urls0) && len(batch.URLs) == len(urls0) && batch.ChildsCaptured == childs0 && gocrawlhq.nDeletes() >= dels0
+//@   ensures [delivered] gocrawlhq.nDeletes() >= dels0 + 1 && gocrawlhq.lastDelete(urls0, childs0) && (gocrawlhq.lastDeleteOK() || closed(done(ctx))) // C15: every finished seed is acknowledged to the queue ... transient crawl-HQ errors (5xx answers, timeouts) delay but never drop these deliveries
+
+// finisherReceiver: the acknowledgement record of a finished seed carries the seed's id.
+// (No batching invariants here: item.Traverse(closure) is a higher-order call whose frame the
+// engine cannot express - "everything" is havocked after it, including the batch.)
+//@ func finisherReceiver
+//@   property C15
+//@   requires globalHQ != nil
+//@   assert Traverse(item)#1: [ack-id] URL.ID == item.id && URL.Type == "seed" // C15: every finished seed is acknowledged to the queue by its id
+
+// The dispatchers' sender goroutines: the batch taken from batchCh is the batch given to the
+// sender (whole).
+//@ func producerDispatcher$1
+//@   property C15
+//@   requires globalHQ != nil && globalHQ.client != nil && batch != nil
+//@   ensures [forwarded] gocrawlhq.lastAdd(old(batch.URLs)) && (gocrawlhq.lastAddOK() || closed(done(*ctx))) // C15: every outlink the pipeline discovers is handed to the queue
+//@ func finisherDispatcher$1
+//@   property C15
+//@   requires globalHQ != nil && globalHQ.client != nil && batch != nil
+//@   ensures [forwarded] gocrawlhq.lastDelete(old(batch.URLs), old(batch.ChildsCaptured)) && (gocrawlhq.lastDeleteOK() || closed(done(*ctx))) // C15: every finished seed is acknowledged to the queue
